@@ -10,6 +10,8 @@ Decided by symbolic interpretation of the repository source (nothing is executed
         instruction fetched with get_ins_off at exactly cur + 2*off and is used iff it is a
         PackedSwitch/SparseSwitch; every other opcode -> [].  The coefficients are the unit
         check (branch offsets are 16-bit code units, cur_idx/get_length are bytes).
+(childs/lookup) `BasicBlocks.get_basic_block(addr)` over two contiguous blocks returns the block whose half-open
+        range [start, end) contains addr (start of a block -> that block, end of the last block -> None).
 (childs/*) `DEXBasicBlock.set_childs(values)` is interpreted for a block holding two generic
         instructions and the value lists [], [-1], [t], [-1,t], [t,u], [t,t], [t,u,w] against an
         opaque block container: -1 is filtered, every other target is looked up as given, the
@@ -221,6 +223,14 @@ def _check_set_childs_some(sink, repo, folder, bb_cls):
                 sink.check("childs/" + cat, label + cat, False, sc, cat, msg)
 
 
+def check_lookup(sink, repo, folder, bbs_cls, bb_cls):
+    gbb = bbs_cls.lookup("get_basic_block")
+    probs = fm.lookup_problems(repo, folder, bbs_cls, bb_cls)
+    sink.check("childs/lookup", "BasicBlocks.get_basic_block", not probs, gbb, "get_basic_block: half-open ranges",
+               probs[0][1] if probs else "", detail="6 probe addresses over two contiguous blocks: start <= addr < end")
+    sink.count("lookup_probes", 6)
+
+
 QUICK_SCEN = [(0x00, 0x00), (0x00, 0x32), (0x32, 0x00), (0x32, 0x32), (0x00, 0x32, 0x00)]
 THOROUGH_SCEN = QUICK_SCEN + [(0x28, 0x00, 0x0E), (0x00, 0x00, 0x2B), (0x2B, 0x27, 0x00)]
 
@@ -271,6 +281,10 @@ def run(ctx):
     ctx.floor("dn_other", 234)
     ctx.floor("dn_paths", 256 + 2)
 
+    bbs_cls = ma.cls("BasicBlocks")
+    ctx.analysed(bbs_cls.lookup("get_basic_block") or bb_cls.lookup("set_childs"))
+    check_lookup(ctx, repo, folder, bbs_cls, bb_cls)
+    ctx.floor("lookup_probes", 6)
     check_set_childs(ctx, repo, folder, bb_cls)
     ctx.floor("set_childs_lists", 7)
     ctx.floor("set_childs_paths", 20)
@@ -286,9 +300,9 @@ def run(ctx):
     ctx.note("successors of blocks are decided as the composition determineNext -> _create_basic_block call site -> set_childs; "
              "whether BasicBlocks.get_basic_block finds the block that contains an address is part of C10's partition")
     # positive controls (every run)
-    canary(ctx, "determineNext units", dn, lambda s: check_determine_next(s, repo, folder, dn, ops=[0x28, 0x32, 0x2B]), ["drop*2"])
+    canary(ctx, "determineNext units", dn, lambda s: check_determine_next(s, repo, folder, dn, ops=[0x28, 0x32, 0x2B]), ["drop*2", "add->sub", "ret-empty"])
     sc = bb_cls.lookup("set_childs")
-    canary(ctx, "set_childs mirror", sc, lambda s: _check_set_childs_some(s, repo, folder, bb_cls), ["swap-tuple"], pick=2)
+    canary(ctx, "set_childs mirror", sc, lambda s: _check_set_childs_some(s, repo, folder, bb_cls), ["swap-tuple", "del-call-stmt", "negate-if"], pick=2)
     ctx.floor("positive_controls", 2)
     if ctx.tier == "thorough":
         _mutation_adequacy(ctx, repo, folder, dx, ma, dn, bb_cls, ma_cls, de, basic)
@@ -304,7 +318,7 @@ def fresh(node):
 
 _OP_TYPES = {"drop*2": ast.BinOp, "add->sub": ast.BinOp, "const+1": ast.Constant, "ret-empty": ast.Return, "negate-if": ast.If,
              "swap-tuple": ast.Tuple, "del-call-stmt": ast.Expr, "del-subscript-store": ast.Assign, "and->or": ast.BoolOp,
-             "aug->sub": ast.AugAssign, "del-attr-assign": ast.Assign, "end<->start": ast.Attribute}
+             "aug->sub": ast.AugAssign, "cmp-flip": ast.Compare, "del-attr-assign": ast.Assign, "end<->start": ast.Attribute}
 
 
 def mutants_of(fn_node, ops, site_ok=None):
@@ -372,6 +386,13 @@ def mutants_of(fn_node, ops, site_ok=None):
             elif opn == "del-subscript-store" and isinstance(n, ast.Assign) and any(isinstance(t_, ast.Subscript) for t_ in n.targets):
                 desc = "delete the statement %s" % ast.unparse(n)[:60]
                 replace(n, ast.Pass())
+            elif opn == "cmp-flip" and isinstance(n, ast.Compare):
+                flip = {ast.LtE: ast.Lt, ast.Lt: ast.LtE, ast.GtE: ast.Gt, ast.Gt: ast.GtE}
+                for j, o in enumerate(n.ops):
+                    if type(o) in flip:
+                        desc = "%s: comparison #%d strictness flipped" % (ast.unparse(n)[:50], j)
+                        n.ops[j] = flip[type(o)]()
+                        break
             elif opn == "and->or" and isinstance(n, ast.BoolOp) and isinstance(n.op, ast.And):
                 desc = "and -> or in %s" % ast.unparse(n)[:60]
                 n.op = ast.Or()
@@ -430,23 +451,29 @@ def canary(ctx, label, func, core, mutant_ops, site_ok=None, pick=0):
     parsed function in memory must make the rule core fire, otherwise the rule has gone blind."""
     base = Sink()
     core(base)
-    gen = mutants_of(func.node, mutant_ops, site_ok)
-    desc = node = None
-    for i, (d, n) in enumerate(gen):
-        desc, node = d, n
-        if i >= pick:
+    tried = []
+    fired = False
+    desc = None
+    for i, (d, node) in enumerate(mutants_of(func.node, mutant_ops, site_ok)):
+        if i < pick:
+            continue
+        tried.append(d)
+        s = Sink()
+        try:
+            with patched(func, node):
+                core(s)
+            fired = bool(set(s.failed) - set(base.failed))
+        except AnalysisError:
+            fired = True
+        if fired:
+            desc = d
             break
-    if node is None:
+        if len(tried) >= 6:
+            break
+    if not tried:
         raise AnalysisError("positive control for %s: no mutation site found in %s" % (label, func.qualname))
-    s = Sink()
-    try:
-        with patched(func, node):
-            core(s)
-        fired = bool(set(s.failed) - set(base.failed))
-    except AnalysisError:
-        fired = True
     if not fired:
-        raise AnalysisError("rule lost its teeth: positive control '%s' on %s is not detected" % (desc, func.qualname))
+        raise AnalysisError("rule lost its teeth: positive controls %s on %s are not detected" % (tried, func.qualname))
     ctx.ob("positive-control", label, True, "in-memory edit '%s' of %s is detected" % (desc, func.qualname))
     ctx.count("positive_controls")
 
@@ -528,6 +555,10 @@ def _mutation_adequacy(ctx, repo, folder, dx, ma, dn, bb_cls, ma_cls, de, basic)
              # `self.end + 1` -> `self.end + 2` still addresses the first instruction of the next block only for
              # 4-byte instructions; the rule accepts end and end+1 only, so this one is detected as well
              allow_survivors=())
+    bbs_cls = ma.cls("BasicBlocks")
+    gbb = bbs_cls.lookup("get_basic_block")
+    adequacy(ctx, "get_basic_block", gbb, lambda s: check_lookup(s, repo, folder, bbs_cls, bb_cls), ["cmp-flip", "ret-empty"],
+             [("rename i", rename_local(gbb.node, "i", "blk"))])
     sf = bb_cls.lookup("set_fathers")
     adequacy(ctx, "set_fathers", sf, lambda s: check_set_childs(s, repo, folder, bb_cls), ["del-call-stmt"], [])
 
